@@ -29,6 +29,8 @@ def scn_poll(ctx):
     ev = ctx.ev
     me = ManualExecutor(ev)
     interval = ctx.real("interval", lo=1, hi=10)
+    import threading
+    gate = threading.Event()
     in_poll = [0]
     ncall = [0]
     concurrent = [False]
@@ -44,6 +46,10 @@ def scn_poll(ctx):
         in_poll[0] += 1
         try:
             sched.point()
+            if p.get("during_poll") and descriptors and not gate.is_set():
+                # a slow poll function: the next delegate finishes while this call is in progress
+                gate.set()
+                sched.vsleep_until(sched.now() + 16 * eps)
             if in_poll[0] > 1:
                 concurrent[0] = True
             scripted = k < maxcalls
@@ -97,6 +103,8 @@ def scn_poll(ctx):
 
     def completer():
         for i, d in enumerate(dels):
+            if i == 1 and p.get("during_poll") and kinds[0] == 0:
+                gate.wait(BIG)  # (set by the first poll call that is shown a descriptor)
             sched.point()
             ev.add("complete_begin", tag=i)
             if kinds[i] == 0:
@@ -185,6 +193,12 @@ def scn_poll(ctx):
         o = outcome(f)
         evs = [x for x in items if (x["k"] == "yield_end" and x["tag"] == i) or (x["k"] == "poll_raise" and i in x["tags"])
                or (x["k"] == "user_cancel_end" and x["tag"] == i and x["result"])]
+        if o[0] == "error":
+            # "exactly the futures it was shown": a poll call's exception never reaches a future it was not shown
+            for pr in ev.of("poll_raise"):
+                if o[1] is pr["exc"]:
+                    ctx.check("raising-poll-fails-only-shown-futures", i in pr["tags"],
+                              "future %d failed with the error of poll call %d, which was shown only %s" % (i, pr["call"], pr["tags"]))
         if kinds[i] == 1:
             cancelled_first = any(x["k"] == "user_cancel_end" and x["result"] and x["seq"] < first("complete_end", tag=i)["seq"] for x in evs) if first("complete_end", tag=i) else False
             if not cancelled_first and o[0] != "cancelled":
@@ -252,7 +266,7 @@ def scn_poll(ctx):
 ASSUMPTIONS = ["poll function scripted for its first `script_calls` calls (per descriptor: nothing / yield value / yield exception; or the whole call raises), later calls yield every descriptor",
                "delegates are completed one after another by a completer thread (value or exception); interval symbolic in [1,10]",
                "operation intervals: a resolving call is a yield_result/yield_exception call, a raising poll call, or a cancel() that returned True"]
-BOUNDS_TEXT = {"quick": "2 futures, 2 scripted poll calls, optional cancel()/cancel function/notify(); P<=1", "thorough": "3 futures, P<=2"}
+BOUNDS_TEXT = {"quick": "2 futures, 2 scripted poll calls, optional cancel()/cancel function/notify(), a delegate finishing while a (slow) poll call is in progress; P<=1", "thorough": "3 futures, P<=2"}
 MUST_REACH = {"*": ["must-present", "yield-checked", "poll-raise-checked", "prompt-checked"]}
 BUDGET = {"quick": 150.0, "thorough": 600.0}
 
@@ -266,10 +280,13 @@ def plan(tier, seed):
             dict(scenario="poll", params=dict(n=2, script_calls=1, plain_cancel=True), bounds=dict(P=1)),
             dict(scenario="poll", params=dict(n=1, script_calls=2, notify=True), bounds=dict(P=1)),
             dict(scenario="poll", params=dict(n=2, script_calls=1, double_yields=True), bounds=dict(P=0)),
+            dict(scenario="poll", params=dict(n=2, script_calls=2, during_poll=True), bounds=dict(P=1)),
         ]
     return [
         dict(scenario="poll", params=dict(n=3, script_calls=2), bounds=dict(P=1)),
         dict(scenario="poll", params=dict(n=2, script_calls=2), bounds=dict(P=2)),
         dict(scenario="poll", params=dict(n=2, script_calls=2, cancel=True), bounds=dict(P=2)),
         dict(scenario="poll", params=dict(n=2, script_calls=2, notify=True, plain_cancel=True), bounds=dict(P=1)),
+        dict(scenario="poll", params=dict(n=3, script_calls=2, during_poll=True), bounds=dict(P=1)),
+        dict(scenario="poll", params=dict(n=2, script_calls=2, during_poll=True, plain_cancel=True), bounds=dict(P=1)),
     ]
